@@ -96,6 +96,18 @@ func init() {
 			}
 			return r
 		},
+		"verifSameBytes": func(e *Exec, fr *frame, args []Value) Value {
+			a, b := args[0].(*SliceV), args[1].(*SliceV)
+			if !a.Len.IsConst() || !b.Len.IsConst() || a.Len.C != b.Len.C {
+				return e.B.Bool(false)
+			}
+			for i := 0; i < int(a.Len.C); i++ {
+				if a.A[i] != b.A[i] {
+					return e.B.Bool(false)
+				}
+			}
+			return e.B.Bool(true)
+		},
 		"verifIsSymbolic": func(e *Exec, fr *frame, args []Value) Value { return e.B.Bool(true) },
 		"verifSteps": func(e *Exec, fr *frame, args []Value) Value { return e.mkInt(e.steps) },
 		"verifAllocated": func(e *Exec, fr *frame, args []Value) Value { return e.mkInt(e.allocated) },
